@@ -1,5 +1,5 @@
 import NbioVerif.DrvCommon
-import NbioVerif.Model.HttpProc
+import NbioVerif.Model.HttpMsg
 /-! httpdrv: line-protocol driver of the HTTP parser family (C06, C07, C08); see harness/cmd/hhttp/main.go. -/
 open Http Scan Drv
 
@@ -62,6 +62,77 @@ structure DS where
   cache : List UInt8
   cur : Option Building        -- processor: message under construction
   dead : Bool
+  -- C07 (hhttp7): the messages of the case, their concatenated rendering, the message boundaries
+  msgs : List Msg := []
+  stream : List UInt8 := []
+  bounds : List Nat := []
+  neighbour : Bool := false
+
+/-! ### C07: decoding of `M` lines (see harness/cmd/hhttp7/msg.go) -/
+
+def decHdrs (s sep inner : String) : Option (List Hdr) :=
+  if s.isEmpty then some [] else
+  (s.splitOn sep).mapM fun x =>
+    match x.splitOn inner with
+    | [n, p, v] => some { name := unhex n, pad := p.toNat!, value := unhex v }
+    | _ => none
+
+def decChunks (s : String) : Option (List Chunk) :=
+  if s.isEmpty then some [] else
+  (s.splitOn ";").mapM fun x =>
+    match x.splitOn "." with
+    | [a, b, c] => some { size := unhex a, ext := unhex b, data := payload c }
+    | _ => none
+
+def decMsg (ws : List String) : Option Msg :=
+  match ws with
+  | [st, hs, bd] =>
+    if !(hs.startsWith "h=") || !(bd.startsWith "b=") then none else
+    let start? : Option Start := match st.splitOn ":" with
+      | ["q", a, b, c] => some (.request (unhex a) (unhex b) (unhex c))
+      | ["s", a, b, c] => some (.status (unhex a) (unhex b) (unhex c))
+      | _ => none
+    let body? : Option Body := match (bd.drop 2).toString.splitOn "|" with
+      | ["n"] => some .none
+      | ["f", d] => some (.fixed (payload d))
+      | ["c", cs, last, ext, trs] =>
+        match decChunks cs, decHdrs trs ";" "." with
+        | some cs, some trs => some (.chunked cs (unhex last) (unhex ext) trs)
+        | _, _ => none
+      | _ => none
+    match start?, decHdrs (hs.drop 2).toString "," ":", body? with
+    | some st, some hs, some b => some { start := st, headers := hs, body := b }
+    | _, _, _ => none
+  | _ => none
+
+def showFraming : Framing → String
+  | .none => "none" | .length n => s!"cl{n}" | .chunked _ => "chunked" | .invalid => "invalid"
+
+/-- the normal form printed by the harness for net/http's result (`normRefReq`/`normRefResp`) -/
+def showNorm (m : Msg) : String :=
+  match m.start with
+  | .request .. =>
+    match normReqSpec m with
+    | some n =>
+      s!"nreq\{{hex (n.line.getD 0 [])}|{hex (n.line.getD 1 [])}|{hex (n.line.getD 2 [])}|{hex (n.line.getD 3 [])}|{hdrString n.header}|{showFraming n.framing}|{n.body.length}:{hexNat (fnv n.body).toNat}|{hdrString n.trailer}|close{n.close}}"
+    | none => "none"
+  | .status .. =>
+    match normRespSpec m with
+    | some n =>
+      s!"nres\{{hex (n.line.getD 0 [])}|{decimal (n.line.getD 1 [])}|{hex (n.line.getD 2 [])}|{hdrString n.header}|{showFraming n.framing}|{n.body.length}:{hexNat (fnv n.body).toNat}|{hdrString n.trailer}}"
+    | none => "none"
+
+/-- feed `stream` in the given segment sizes (the rest in one piece), as the harness does -/
+def feedSegs (g : Cfg) (limit : Nat) : Nat → P → List UInt8 → List UInt8 → List Nat → List Ev → Res P Ev
+  | 0, p, cache, _, _, acc => ⟨acc, .inl (p, cache)⟩
+  | fuel + 1, p, cache, rest, segs, acc =>
+    if rest = [] then ⟨acc, .inl (p, cache)⟩ else
+    let n := match segs with | s :: _ => if s < rest.length && s > 0 then s else rest.length | [] => rest.length
+    let data := rest.take n
+    if cache ≠ [] && limit > 0 && cache.length + data.length > limit then ⟨acc, .inr E.tooLong.code⟩
+    else match implParse (machine g) p cache data acc with
+      | ⟨acc', .inl (p', cache')⟩ => feedSegs g limit fuel p' cache' (rest.drop n) segs.tail acc'
+      | r => r
 
 /-- run the processor glue over the events of one Parse call -/
 def runProc (s : DS) (evs : List Ev) : Option Building × String :=
@@ -105,6 +176,45 @@ partial def loop (h : IO.FS.Stream) (s : DS) : IO Unit := do
         | .inr e =>
           IO.println s!"R err={e} [{evs}] msgs={msgs}{pm}"
           loop h { s with dead := true, cur := cur }
+  | "M" :: rest =>
+    match decMsg rest with
+    | none => IO.println "bad-op"; loop h s
+    | some m =>
+      let b := m.render
+      let wf := if wfMsg m then "" else "not-wf "
+      IO.println s!"R {wf}render={b.length}:{hexNat (fnv b).toNat}"
+      loop h { s with msgs := s.msgs ++ [m], stream := s.stream ++ b, bounds := s.bounds ++ [s.stream.length + b.length] }
+  | ["X", _, hx] =>
+    let b := unhex hx
+    IO.println s!"R render={b.length}:{hexNat (fnv b).toNat}"
+    loop h { s with stream := s.stream ++ b, neighbour := true }
+  | "F" :: segs :: rest =>
+    let badUrls := hexList ((field rest "badurl").getD "")
+    let badProtos := hexList ((field rest "badproto").getD "")
+    let g : Cfg := { s.g with urlOk := fun u => !badUrls.contains u, protoOk := fun u => !badProtos.contains u }
+    let segl := if segs == "whole" then [] else (segs.splitOn ",").map String.toNat!
+    let r := feedSegs g s.limit (s.stream.length + 1) (Http.init g) [] s.stream segl []
+    let msgs := match procRun g.isClient none r.evs [] with
+      | some (_, out) => String.intercalate ";" (out.map showDelivered)
+      | none => "proc-nil-deref"
+    let (err, cache, st) := match r.fin with
+      | .inl (p', cache') => (0, cache'.length, p'.st.num)
+      | .inr e => (e, 0, 0)
+    if s.neighbour then
+      IO.println s!"R err={err} cache={if err == 0 then toString cache else "?"} st={if err == 0 then toString st else "?"} nb={msgs} offs=- ref=-"
+    else
+      let done := (r.evs.filter (· == Ev.complete)).length
+      let offs := String.intercalate "," ((s.bounds.take done).map toString)
+      let ref := String.intercalate ";" (s.msgs.map showNorm)
+      -- instances of the C07 theorems, evaluated on this case (cannot fail for well-formed messages)
+      let specEvs := (s.msgs.map eventsOf).flatten
+      let specDel : List Delivered := s.msgs.filterMap fun m =>
+        match reqSpec m, respSpec m with
+        | some q, _ => some (.req q) | _, some p => some (.resp p) | _, _ => none
+      let flat (evs : List Ev) : List Ev := evs   -- body events are whole per message in both
+      let ok := flat r.evs == specEvs && deliveredOf g.isClient specEvs == specDel
+      IO.println s!"R err={err} cache={if err == 0 then toString cache else "?"} st={if err == 0 then toString st else "?"} nb={msgs} offs={offs} ref={ref}{if ok then "" else " spec-mismatch"}"
+    loop h s
   | _ => IO.println "bad-op"; loop h s
 
 def main : IO Unit := do
